@@ -1412,6 +1412,15 @@ void gen_c19(Gen &g) {
       path = "/sim/dir";
     else
       path = "/sim/in" + std::to_string(r.below((uint64_t)nfiles)) + ".asm";
+    if (w >= 3 && r.chance(1, 10)) {
+      // the same file through a symbolic link (whose own "size" is the length of the target's name)
+      FileSpec ln;
+      ln.path = "/sim/link" + std::to_string(p.world.files.size()) + ".asm";
+      ln.kind = 3;
+      ln.data = path;
+      p.world.files.push_back(ln);
+      path = ln.path;
+    }
     Op a = g.mk(r.chance(1, 3) ? OP_COUNT_FILE : OP_ASM_FILE, 0);
     a.path = path;
     if (a.kind == OP_COUNT_FILE) {
